@@ -74,11 +74,12 @@ def run(ctx):
 
     # ------------------------------------------------------------------ (G) series
     if q:
-        gens = [("Series_gen_quick.cfg", None), ("Series_gen_quick_u1.cfg", None), ("Series_gen_quick_shared.cfg", None)]
+        gens = [("Series_gen_quick.cfg", None), ("Series_gen_quick_u1.cfg", None), ("Series_gen_quick_shared.cfg", None),
+                ("Series_gen_quick_tables.cfg", None)]
     else:
         gens = [("Series_gen_thorough.cfg", None), ("Series_gen_thorough_u1.cfg", None),
                 ("Series_gen_thorough_shared.cfg", None), ("Series_gen_thorough_exp3.cfg", None),
-                ("Series_gen_sim.cfg", 200)]
+                ("Series_gen_quick_tables.cfg", None), ("Series_gen_sim.cfg", 200)]
     meta = None
     sets = []
     for cfg, sim in gens:
